@@ -1,5 +1,6 @@
 //! C19 — heap discipline: matching deallocations, no leaks on teardown.
 
+use uflow::verif::Serialize as _;
 use crate::alloc;
 use crate::engine::*;
 use crate::sim::gen::*;
@@ -17,6 +18,9 @@ pub struct Case {
     /// when present, a World script (real Server and Clients) is executed and torn down instead
     #[serde(default)]
     pub world: Option<crate::sim::script::WCase>,
+    /// when present, these parser inputs are decoded (and re-encoded when accepted) instead
+    #[serde(default)]
+    pub codec: Option<Vec<crate::props::c16::Case>>,
 }
 
 pub struct C19;
@@ -29,6 +33,23 @@ struct Outcome {
     multi_frag_odd_delivered: bool,
     dropped_in_flight: bool,
     deliveries: usize,
+}
+
+fn exercise_codec(inputs: &[Vec<u8>]) -> usize {
+    use uflow::verif::Serialize as _;
+    let mut accepted = 0;
+    for b in inputs {
+        if let Some(f) = uflow::verif::Frame::read(b) {
+            accepted += 1;
+            // (the parser accepts datagrams no sender can produce, e.g. fragment id > last fragment id; the library
+            // never re-encodes what it has read, and the encoder's assertions do not apply to such values)
+            if crate::refcodec::representable(&f) {
+                let w = f.write();
+                drop(w);
+            }
+        }
+    }
+    accepted
 }
 
 fn exercise(case: &Case) -> Outcome {
@@ -66,16 +87,17 @@ impl Check for C19 {
 
     fn strategy(&self, tier: Tier) -> BoxedStrategy<Case> {
         let p = GenParams { max_ticks: tier.pick(120, 300), max_sends: 4, max_frags: tier.pick(6, 16), tail: true, modes: [1, 2, 2, 3], ..GenParams::default() };
-        let pair = (scenario_strategy(&p), prop_oneof![2 => Just(u16::MAX), 3 => any::<u16>()], any::<bool>()).prop_map(|(sc, drop_after, run_tail)| Case { sc, drop_after, run_tail, world: None });
+        let codec = (scenario_strategy(&GenParams { max_ticks: 1, max_sends: 1, faults: false, tail: false, max_fates: 1, ..GenParams::default() }), proptest::collection::vec(crate::props::c16::parser_input_strategy(), 1..20)).prop_map(|(sc, inputs)| Case { sc, drop_after: 0, run_tail: false, world: None, codec: Some(inputs) });
+        let pair = (scenario_strategy(&p), prop_oneof![2 => Just(u16::MAX), 3 => any::<u16>()], any::<bool>()).prop_map(|(sc, drop_after, run_tail)| Case { sc, drop_after, run_tail, world: None, codec: None });
         // Client / Server teardown: World scripts with a short settle phase, so that endpoints are dropped while
         // connections are pending, active (data in flight), closing or lingering
         let sp = crate::sim::script::ScriptParams { max_clients: tier.pick(3, 6), max_ops: tier.pick(80, 250), faults: true, disconnect_weight: 2, drop_weight: 1, send_weight: 10, timeouts: vec![3000, 20000], big_jumps: false, settle_us: 0, replay_weight: 1, vary_server_limits: true };
         let q = GenParams { max_ticks: 1, max_sends: 1, faults: false, tail: false, max_fates: 1, ..GenParams::default() };
         let world = (scenario_strategy(&q), crate::sim::script::wcase_strategy(&sp), prop_oneof![Just(0u64), Just(300_000u64), Just(3_000_000u64), Just(25_000_000u64)]).prop_map(|(sc, mut wc, settle)| {
             wc.settle_us = settle;
-            Case { sc, drop_after: 0, run_tail: false, world: Some(wc) }
+            Case { sc, drop_after: 0, run_tail: false, world: Some(wc), codec: None }
         });
-        prop_oneof![2 => pair, 1 => world].boxed()
+        prop_oneof![4 => pair, 2 => world, 1 => codec].boxed()
     }
 
     fn cases(&self, tier: Tier) -> u64 {
@@ -83,7 +105,7 @@ impl Check for C19 {
     }
 
     fn rule(&self) -> String {
-        "case = SimPair scenario (multi-fragment sizes biased to k*1448+-1 and arbitrary non-multiples, all modes, faults, small windows so that the receive window advances over partial packets) executed under the checking allocator, with the whole pair dropped after a generated number of ticks (mid-transfer) or after a fair tail. A second case kind runs a World script (real Server and 1-3 Clients: sends of all sizes in both directions, disconnects, Server::drop, faults) and drops Server, Clients and everything in flight after 0 / 0.3 / 3 / 25 s of settling. Freed blocks are checksummed and quarantined until the case ends. Oracle: no block released twice, no release of a pointer that is not a live block, no write into a released block; the allocator recorded no dealloc / realloc whose size or alignment differs from the one the block was allocated with, and the thread's live-byte count after everything created by the case has been dropped equals the count on entry (one warm-up execution per worker first). Non-trivial = a multi-fragment packet whose length is not a multiple of 1448 completed reassembly and was delivered, or the pair was dropped with data in flight. Distinct = distinct serialised case.".into()
+        "case = SimPair scenario (multi-fragment sizes biased to k*1448+-1 and arbitrary non-multiples, all modes, faults, small windows so that the receive window advances over partial packets) executed under the checking allocator, with the whole pair dropped after a generated number of ticks (mid-transfer) or after a fair tail. A third case kind hands the frame parser 1-19 inputs from C16's generators (valid frames, arbitrary bytes, structurally damaged frames with a recomputed checksum), re-encoding what is accepted: rejected input must leave nothing behind (non-trivial there = a damaged data frame of more than 20 bytes was rejected). A second case kind runs a World script (real Server and 1-3 Clients: sends of all sizes in both directions, disconnects, Server::drop, faults) and drops Server, Clients and everything in flight after 0 / 0.3 / 3 / 25 s of settling. Freed blocks are checksummed and quarantined until the case ends. Oracle: no block released twice, no release of a pointer that is not a live block, no write into a released block; the allocator recorded no dealloc / realloc whose size or alignment differs from the one the block was allocated with, and the thread's live-byte count after everything created by the case has been dropped equals the count on entry (one warm-up execution per worker first). Non-trivial = a multi-fragment packet whose length is not a multiple of 1448 completed reassembly and was delivered, or the pair was dropped with data in flight. Distinct = distinct serialised case.".into()
     }
 
     fn assumptions(&self) -> Vec<String> {
@@ -104,9 +126,12 @@ impl Check for C19 {
             let _ = exercise(&case);
             WARM.with(|w| w.set(true));
         }
+        // parser inputs are built before the measured scope begins
+        let codec_inputs: Option<Vec<Vec<u8>>> = case.codec.as_ref().map(|v| v.iter().map(crate::props::c16::case_bytes).collect());
         alloc::reset_mismatches();
         let _ = (alloc::take_double_frees(), alloc::take_invalid_frees(), alloc::take_writes_after_free());
         let before = alloc::live();
+        let mut codec_accepted = 0usize;
         let out = {
             // freed blocks are checksummed and held back until the case is over: a second release of a block, or a
             // write into it, is then seen reliably
@@ -118,7 +143,12 @@ impl Check for C19 {
             }
             alloc::quarantine_begin();
             let _scope = Scope;
-            exercise(&case)
+            if let Some(inputs) = &codec_inputs {
+                codec_accepted = exercise_codec(inputs);
+                Outcome { multi_frag_odd_delivered: false, dropped_in_flight: false, deliveries: 0 }
+            } else {
+                exercise(&case)
+            }
         };
         let after = alloc::live();
         let mm = alloc::mismatches();
@@ -158,6 +188,14 @@ impl Check for C19 {
         }
         if case.world.is_some() {
             classes.push("world_teardown");
+        }
+        if let Some(inputs) = &codec_inputs {
+            classes.push("codec_inputs");
+            if codec_accepted < inputs.len() {
+                classes.push("codec_input_rejected");
+            }
+            let rejected_data_frame = inputs.iter().any(|b| b.first() == Some(&10) && b.len() > 20 && uflow::verif::Frame::read(b).is_none());
+            return CaseResult::ok(rejected_data_frame, classes);
         }
         CaseResult::ok(out.multi_frag_odd_delivered || out.dropped_in_flight, classes)
     }
